@@ -287,14 +287,17 @@ theorem mem_names_renameFrom (cfg : Cfg) (pre : Name) : ∀ (ps : List Param) (i
       · exact Or.inl ⟨j, by omega, e⟩
       · exact Or.inr ⟨List.mem_cons_of_mem _ hm, h1, h2⟩
 
-/-- `rename` yields pairwise distinct names (given Go's guarantee that the names which can be
-referred to are distinct, and that no name is missing in the result) -/
+/-- a name that `rename` leaves alone and that can be referred to -/
+def keepable (cfg : Cfg) (pre : Name) (n : Name) : Bool := usable n && !unusable cfg n && !pre.isPrefixOf n
+
+/-- `rename` yields pairwise distinct names, given that the names it leaves alone are distinct (Go
+guarantees that for every parameter list) and that no name is missing in the result -/
 theorem nodup_renameFrom (cfg : Cfg) (pre : Name) : ∀ (ps : List Param) (i : Nat),
-    ((names ps).filter usable).Nodup → (∀ n ∈ names (renameFrom cfg pre i ps), n ≠ []) →
+    ((names ps).filter (keepable cfg pre)).Nodup → (∀ n ∈ names (renameFrom cfg pre i ps), n ≠ []) →
       (names (renameFrom cfg pre i ps)).Nodup
   | [], _, _, _ => by simp [renameFrom, names]
   | p :: r, i, hv, hne => by
-    have hvr : ((names r).filter usable).Nodup :=
+    have hvr : ((names r).filter (keepable cfg pre)).Nodup :=
       hv.sublist ((List.sublist_cons_self _ _).filter _)
     have hner : ∀ n ∈ names (renameFrom cfg pre (i + 1) r), n ≠ [] := fun n hn =>
       hne n (by simp only [renameFrom, names_cons]; exact List.mem_cons_of_mem _ hn)
@@ -314,7 +317,7 @@ theorem nodup_renameFrom (cfg : Cfg) (pre : Name) : ∀ (ps : List Param) (i : N
       rcases mem_names_renameFrom cfg pre r (i + 1) _ hm with ⟨j, _, e⟩ | ⟨hmr, _, _⟩
       · have := genName_prefix pre j
         rw [← e, c.2] at this; cases this
-      · have hus : usable p.name = true := by simp [usable, hp0, hpb]
+      · have hus : keepable cfg pre p.name = true := by simp [keepable, usable, hp0, hpb, c.1, c.2]
         simp only [names_cons, List.filter_cons, hus, if_true] at hv
         exact (List.nodup_cons.1 hv).1 (List.mem_filter.2 ⟨hmr, hus⟩)
 
@@ -371,21 +374,34 @@ def ValidSig (ps : List Param) : Prop := ((names ps).filter usable).Nodup
 instance (ps : List Param) : Decidable (ValidSig ps) :=
   inferInstanceAs (Decidable ((names ps).filter usable).Nodup)
 
+theorem keepable_nodup_of_validSig (cfg : Cfg) (pre : Name) {ps : List Param} (hv : ValidSig ps) :
+    ((names ps).filter (keepable cfg pre)).Nodup := by
+  have : (names ps).filter (keepable cfg pre) = ((names ps).filter usable).filter (keepable cfg pre) := by
+    rw [List.filter_filter]
+    congr 1
+    funext n
+    simp only [keepable]
+    cases usable n <;> simp
+  rw [this]
+  exact hv.sublist List.filter_sublist
+
 /-- the renamed list is fine as soon as it has no missing name and no captured binder -/
-theorem namesOk_renameBlankWith (cfg : Cfg) {pre : Name} {avoid : List Name} (hpre : 1 ≤ pre.length)
-    (ps : List Param) (hv : ValidSig ps)
+theorem namesOk_renameBlankWith' (cfg : Cfg) {pre : Name} {avoid : List Name} (hpre : 1 ≤ pre.length)
+    (ps : List Param) (hk : ((names ps).filter (keepable cfg pre)).Nodup)
+    (hv' : hasBlank cfg ps = false → ValidSig ps)
     (hne : ∀ n ∈ names (renameBlankWith cfg pre ps), n ≠ [])
     (hna : ∀ n ∈ names (renameBlankWith cfg pre ps), n ∉ avoid) :
     NamesOk avoid (renameBlankWith cfg pre ps) := by
   unfold renameBlankWith at hne hna ⊢
   by_cases hb : hasBlank cfg ps = true
   · rw [if_pos hb] at hne hna ⊢
-    refine ⟨fun n hn => ?_, nodup_renameFrom cfg pre ps 0 hv hne, hna⟩
+    refine ⟨fun n hn => ?_, nodup_renameFrom cfg pre ps 0 hk hne, hna⟩
     rcases mem_names_renameFrom cfg pre ps 0 n hn with ⟨j, _, e⟩ | ⟨_, h1, _⟩
     · exact e ▸ usable_genName hpre j
     · have hnb : n ≠ blank := fun e => by rw [e, unusable_blank] at h1; cases h1
       simp [usable, hne n hn, hnb]
   · rw [if_neg hb] at hne hna ⊢
+    have hv := hv' (by simpa using hb)
     have hnb : ∀ n ∈ names ps, n ≠ blank := by
       intro n hn e
       apply hb
@@ -396,6 +412,13 @@ theorem namesOk_renameBlankWith (cfg : Cfg) {pre : Name} {avoid : List Name} (hp
     refine ⟨hus, ?_, hna⟩
     have : (names ps).filter usable = names ps := List.filter_eq_self.2 hus
     exact this ▸ hv
+
+theorem namesOk_renameBlankWith (cfg : Cfg) {pre : Name} {avoid : List Name} (hpre : 1 ≤ pre.length)
+    (ps : List Param) (hv : ValidSig ps)
+    (hne : ∀ n ∈ names (renameBlankWith cfg pre ps), n ≠ [])
+    (hna : ∀ n ∈ names (renameBlankWith cfg pre ps), n ∉ avoid) :
+    NamesOk avoid (renameBlankWith cfg pre ps) :=
+  namesOk_renameBlankWith' cfg hpre ps (keepable_nodup_of_validSig cfg pre hv) (fun _ => hv) hne hna
 
 /-- a name of the renamed list is a generated one or a name the user wrote that is not unusable -/
 theorem mem_names_renameBlankWith {cfg : Cfg} {pre : Name} {ps : List Param} {n : Name}
@@ -507,9 +530,14 @@ theorem runApply_eq {α} (cfg : Cfg) (ps : List Param) (f : List α → List α)
 theorem length_uncurryParams (cfg : Cfg) (outer inner : List Param) :
     (uncurryParams cfg outer inner).1.length = outer.length ∧
     (uncurryParams cfg outer inner).2.length = inner.length := by
+  have hr : ∀ (x pre : Name) (ps : List Param) (i : Nat), (renameParam x pre i ps).length = ps.length := by
+    intro x pre ps
+    induction ps with
+    | nil => intro _; rfl
+    | cons p r ih => intro i; simp [renameParam, ih]
   unfold uncurryParams
   dsimp only
-  split <;> simp [length_effParams, length_positionalFrom]
+  split <;> simp [length_effParams, hr]
 
 theorem runUncurry_eq {α} (cfg : Cfg) (outer inner : List Param) (f : List α → List α) (a : α) (rest : List α)
     (hlen1 : outer.length = 1) (hlen2 : inner.length = rest.length)
@@ -609,42 +637,18 @@ theorem namesOk_append {avoid : List Name} {a b : List Param} (ha : NamesOk avoi
 
 /-- the side condition of uncurry: both lists fine on their own, and no clash between the (renamed)
 outer and inner names unless that is repaired -/
-theorem uncurryParams_namesOk (cfg : Cfg) (outer inner : List Param)
+theorem uncurryParams_namesOk (cfg : Cfg) (outer inner : List Param) (hc : cfg.crossFixed = false)
     (hvo : ValidSig outer) (hvi : ValidSig inner)
     (hso : Side cfg [fName] outer) (hsi : Side cfg [fName] inner)
-    (hx : cfg.crossFixed = true ∨
-      ∀ n ∈ names (effParams cfg [fName] paramPrefix outer), n ∉ names (effParams cfg [fName] innerPrefix inner)) :
+    (hx : ∀ n ∈ names (effParams cfg [fName] paramPrefix outer), n ∉ names (effParams cfg [fName] innerPrefix inner)) :
     NamesOk [fName] ((uncurryParams cfg outer inner).1 ++ (uncurryParams cfg outer inner).2) := by
   have hf1 : ∀ n ∈ [fName], n.length ≤ paramPrefix.length := by simp [fName, paramPrefix]
   have hf2 : ∀ n ∈ [fName], n.length ≤ innerPrefix.length := by simp [fName, innerPrefix]
   have ho := effParams_namesOk cfg (pre := paramPrefix) (by simp [paramPrefix]) hf1 avoidOk_f outer hvo hso
   have hi := effParams_namesOk cfg (pre := innerPrefix) (by simp [innerPrefix]) hf2 avoidOk_f inner hvi hsi
   unfold uncurryParams
-  dsimp only
-  split
-  · rename_i hc
-    dsimp only
-    refine namesOk_append (namesOk_positional (by simp [paramPrefix]) hf1 _ 0)
-      (namesOk_positional (by simp [innerPrefix]) hf2 _ 0) (fun n hn hm => ?_)
-    obtain ⟨i, _, e1⟩ := mem_names_positionalFrom _ _ _ _ hn
-    obtain ⟨j, _, e2⟩ := mem_names_positionalFrom _ _ _ _ hm
-    exact genName_param_ne_inner i j (e1 ▸ e2)
-  · rename_i hc
-    dsimp only
-    refine namesOk_append ho hi (fun n hn hm => ?_)
-    rcases hx with hx | hx
-    · apply hc
-      simp only [hx, Bool.true_and, List.any_eq_true, Bool.and_eq_true, bne_iff_ne, ne_eq, decide_eq_true_eq]
-      have hu := ho.1 n hn
-      simp only [usable, Bool.and_eq_true, bne_iff_ne, ne_eq] at hu
-      refine ⟨n, ?_, ⟨hu.1, hu.2⟩, ?_⟩
-      · simp only [uncurrySig, names_append]; exact List.mem_append_left _ hn
-      · simp only [uncurrySig, names_append, List.count_append]
-        have h1 : 0 < List.count n (names (effParams cfg [fName] paramPrefix outer)) := List.count_pos_iff.2 hn
-        have h2 : 0 < List.count n (names (effParams cfg [fName] innerPrefix inner)) := List.count_pos_iff.2 hm
-        omega
-    · exact hx n hn hm
-
+  simp only [hc, Bool.false_eq_true, if_false]
+  exact namesOk_append ho hi hx
 
 end Goderive.Plumb
 
@@ -1238,13 +1242,170 @@ theorem eff_disjoint (cfg : Cfg) (hpf : cfg.prefixFixed = true) (av1 av2 : List 
     rw [ej, genName_prefix] at this; cases this
   · rw [hd n ha hb] at hua; cases hua
 
-/-- the naming condition of uncurry on such a variant: the only clause left is the user's own clash -/
+/-- the merged list of uncurry for an arbitrary (pre-processed) inner list `inner1`, on a variant where
+unnamed, `f`/`err` and the generator's own prefixes are unusable -/
+theorem uncurry_merged_namesOk (cfg : Cfg) (hu : cfg.unnamedFixed = true) (hs : cfg.shadowFixed = true)
+    (hpf : cfg.prefixFixed = true) (outer inner1 : List Param) (hvo : ValidSig outer)
+    (hk : ((names inner1).filter (keepable cfg innerPrefix)).Nodup)
+    (hv' : hasBlank cfg inner1 = false → ValidSig inner1)
+    (hd : ∀ n ∈ names outer, n ∈ names inner1 → unusable cfg n = true) :
+    NamesOk [fName] (effParams cfg [fName] paramPrefix outer ++ effParams cfg [fName] innerPrefix inner1) := by
+  have hf1 : ∀ n ∈ [fName], n.length ≤ paramPrefix.length := by simp [fName, paramPrefix]
+  have ho := effParams_namesOk cfg (pre := paramPrefix) (by simp [paramPrefix]) hf1 avoidOk_f outer hvo
+    (side_of_flags hu hs _ _)
+  have hi : NamesOk [fName] (effParams cfg [fName] innerPrefix inner1) := by
+    unfold effParams
+    refine namesOk_renameBlankWith' cfg (by simp [innerPrefix]) inner1 hk hv' (fun n hn e => ?_) (fun n hn hm => ?_)
+    · rcases mem_names_renameBlankWith hn with ⟨j, ej⟩ | ⟨_, hun⟩
+      · have := genName_length innerPrefix j; rw [← ej, e] at this; simp at this
+      · subst e; simp [unusable, hu] at hun
+    · rcases mem_names_renameBlankWith hn with ⟨j, ej⟩ | ⟨_, hun⟩
+      · have := genName_length innerPrefix j
+        simp only [List.mem_cons, List.not_mem_nil, or_false] at hm
+        rw [← ej, hm] at this; simp [fName, innerPrefix] at this
+      · simp only [List.mem_cons, List.not_mem_nil, or_false] at hm
+        subst hm; simp [unusable, hs] at hun
+  exact namesOk_append ho hi (eff_disjoint cfg hpf _ _ outer inner1 hd)
+
+/-- the naming condition of uncurry on such a variant without the last repair: the only clause left is
+the user's own clash -/
 theorem uncurryParams_namesOk_prefix (cfg : Cfg) (hu : cfg.unnamedFixed = true) (hs : cfg.shadowFixed = true)
-    (hpf : cfg.prefixFixed = true) (outer inner : List Param) (hvo : ValidSig outer) (hvi : ValidSig inner)
+    (hpf : cfg.prefixFixed = true) (hc : cfg.crossFixed = false)
+    (outer inner : List Param) (hvo : ValidSig outer) (hvi : ValidSig inner)
     (hd : ∀ n ∈ names outer, n ∈ names inner → unusable cfg n = true) :
-    NamesOk [fName] ((uncurryParams cfg outer inner).1 ++ (uncurryParams cfg outer inner).2) :=
-  uncurryParams_namesOk cfg outer inner hvo hvi (side_of_flags hu hs _ _) (side_of_flags hu hs _ _)
-    (Or.inr (eff_disjoint cfg hpf _ _ outer inner hd))
+    NamesOk [fName] ((uncurryParams cfg outer inner).1 ++ (uncurryParams cfg outer inner).2) := by
+  unfold uncurryParams
+  simp only [hc, Bool.false_eq_true, if_false]
+  exact uncurry_merged_namesOk cfg hu hs hpf outer inner hvo (keepable_nodup_of_validSig cfg _ hvi) (fun _ => hvi) hd
+
+/-! ### after 94a60e5: `renameParam` -/
+
+theorem mem_names_renameParam (x pre : Name) : ∀ (ps : List Param) (i : Nat) (n : Name),
+    n ∈ names (renameParam x pre i ps) → (∃ j, i ≤ j ∧ n = genName pre j) ∨ (n ∈ names ps ∧ (x = [] ∨ x = blank ∨ n ≠ x))
+  | [], _, _, h => by simp [renameParam, names] at h
+  | p :: r, i, n, h => by
+    simp only [renameParam, names_cons, List.mem_cons] at h
+    rcases h with h | h
+    · by_cases c : (x != [] && x != blank && p.name == x) = true
+      · rw [if_pos c] at h; exact Or.inl ⟨i, Nat.le_refl _, h⟩
+      · rw [if_neg c] at h
+        subst h
+        refine Or.inr ⟨List.mem_cons_self .., ?_⟩
+        simp only [Bool.and_eq_true, bne_iff_ne, ne_eq, beq_iff_eq, not_and] at c
+        by_cases h1 : x = []
+        · exact Or.inl h1
+        · by_cases h2 : x = blank
+          · exact Or.inr (Or.inl h2)
+          · exact Or.inr (Or.inr (c ⟨h1, h2⟩))
+    · rcases mem_names_renameParam x pre r (i + 1) n h with ⟨j, hj, e⟩ | ⟨hm, h1⟩
+      · exact Or.inl ⟨j, by omega, e⟩
+      · exact Or.inr ⟨List.mem_cons_of_mem _ hm, h1⟩
+
+/-- nothing to rename: the list is unchanged -/
+theorem renameParam_of_not_mem (x pre : Name) : ∀ (ps : List Param) (i : Nat),
+    x ∉ names ps → renameParam x pre i ps = ps
+  | [], _, _ => rfl
+  | p :: r, i, h => by
+    simp only [names_cons, List.mem_cons, not_or] at h
+    have : (x != [] && x != blank && p.name == x) = false := by
+      have : (p.name == x) = false := by simpa using fun e => h.1 e.symm
+      simp [this]
+    simp [renameParam, this, renameParam_of_not_mem x pre r (i + 1) h.2]
+
+/-- an outer parameter without a real name renames nothing -/
+theorem renameParam_of_unreal (x pre : Name) (h : x = [] ∨ x = blank) : ∀ (ps : List Param) (i : Nat),
+    renameParam x pre i ps = ps
+  | [], _ => rfl
+  | p :: r, i => by
+    have : (x != [] && x != blank && p.name == x) = false := by
+      rcases h with h | h <;> simp [h]
+    simp [renameParam, this, renameParam_of_unreal x pre h r (i + 1)]
+
+/-- the names `renameParam` leaves alone and `rename` will leave alone are among the user's -/
+theorem keepable_renameParam_sublist (cfg : Cfg) (hpf : cfg.prefixFixed = true) (x : Name) :
+    ∀ (ps : List Param) (i : Nat),
+      ((names (renameParam x innerPrefix i ps)).filter (keepable cfg innerPrefix)).Sublist ((names ps).filter usable)
+  | [], _ => by simp [renameParam, names]
+  | p :: r, i => by
+    have ih := keepable_renameParam_sublist cfg hpf x r (i + 1)
+    simp only [renameParam, names_cons]
+    by_cases c : (x != [] && x != blank && p.name == x) = true
+    · rw [if_pos c]
+      have hk : keepable cfg innerPrefix (genName innerPrefix i) = false := by
+        simp [keepable, genName_prefix]
+      simp only [List.filter_cons, hk, Bool.false_eq_true, if_false]
+      by_cases hu : usable p.name = true
+      · simp only [hu, if_true]; exact ih.cons _
+      · simp only [hu, if_false]; exact ih
+    · rw [if_neg c]
+      by_cases hk : keepable cfg innerPrefix p.name = true
+      · have hu : usable p.name = true := by
+          simp only [keepable, Bool.and_eq_true] at hk; exact hk.1.1
+        simp only [List.filter_cons, hk, hu, if_true]
+        exact ih.cons_cons _
+      · by_cases hu : usable p.name = true
+        · simp only [List.filter_cons, hk, hu, if_true, if_false]; exact ih.cons _
+        · simp only [List.filter_cons, hk, hu, if_false]; exact ih
+
+/-- THE UNCONDITIONAL STATEMENT (all naming repairs in place): for every outer parameter and every
+inner parameter list that Go accepts, the merged parameter list of the uncurry wrapper consists of
+usable, pairwise distinct names none of which is `f` -/
+theorem uncurryParams_namesOk_fixed (cfg : Cfg) (hu : cfg.unnamedFixed = true) (hs : cfg.shadowFixed = true)
+    (hpf : cfg.prefixFixed = true) (hc : cfg.crossFixed = true)
+    (outer inner : List Param) (hlen : outer.length = 1) (hvo : ValidSig outer) (hvi : ValidSig inner) :
+    NamesOk [fName] ((uncurryParams cfg outer inner).1 ++ (uncurryParams cfg outer inner).2) := by
+  unfold uncurryParams
+  simp only [hc, if_true]
+  match outer, hlen with
+  | [q], _ =>
+    simp only [outerName]
+    refine uncurry_merged_namesOk cfg hu hs hpf [q] _ hvo ?_ ?_ ?_
+    · exact hvi.sublist (keepable_renameParam_sublist cfg hpf q.name inner 0)
+    · -- nothing unusable in the pre-processed list: then nothing was renamed by `renameParam` either
+      intro hb
+      have hno : q.name ∉ names inner ∨ q.name = [] ∨ q.name = blank := by
+        by_cases hm : q.name ∈ names inner
+        · by_cases h1 : q.name = []
+          · exact Or.inr (Or.inl h1)
+          · by_cases h2 : q.name = blank
+            · exact Or.inr (Or.inr h2)
+            · exfalso
+              -- the position that bears the outer name was renamed to a generated (unusable) name
+              have : ∀ (ps : List Param) (i : Nat), q.name ∈ names ps →
+                  ∃ j, genName innerPrefix j ∈ names (renameParam q.name innerPrefix i ps) := by
+                intro ps
+                induction ps with
+                | nil => intro _ h; cases h
+                | cons p r ih =>
+                  intro i h
+                  simp only [names_cons, List.mem_cons] at h
+                  by_cases e : p.name = q.name
+                  · exact ⟨i, by simp [renameParam, h1, h2, e, names_cons]⟩
+                  · rcases h with h | h
+                    · exact absurd h.symm e
+                    · obtain ⟨j, hj⟩ := ih (i + 1) h
+                      exact ⟨j, by simp only [renameParam, names_cons]; exact List.mem_cons_of_mem _ hj⟩
+              obtain ⟨j, hj⟩ := this inner 0 hm
+              simp only [hasBlank, List.any_eq_false] at hb
+              obtain ⟨p, hp, e⟩ := List.mem_map.1 hj
+              have := hb p hp
+              rw [e] at this
+              simp [unusable, hpf, genName_prefix] at this
+        · exact Or.inl hm
+      have : renameParam q.name innerPrefix 0 inner = inner := by
+        rcases hno with h | h | h
+        · exact renameParam_of_not_mem _ _ _ _ h
+        · exact renameParam_of_unreal _ _ (Or.inl h) _ _
+        · exact renameParam_of_unreal _ _ (Or.inr h) _ _
+      rw [this]; exact hvi
+    · intro n hn hm
+      simp only [names_cons, names_nil, List.mem_cons, List.not_mem_nil, or_false] at hn
+      subst hn
+      rcases mem_names_renameParam q.name innerPrefix inner 0 _ hm with ⟨j, _, e⟩ | ⟨_, h | h | h⟩
+      · rw [e]; simp [unusable, hpf, genName_prefix]
+      · rw [h]; simp [unusable, hu]
+      · rw [h]; exact unusable_blank cfg
+      · exact absurd rfl h
 
 theorem validSig_of_namesOk {avoid : List Name} {ps : List Param} (h : NamesOk avoid ps) : ValidSig ps := by
   unfold ValidSig
